@@ -376,7 +376,7 @@ class ExcelModel:
 
             _name = '%s'
             if 'sheet_id' in rng:
-                _name = f'{rng["sheet_id"]}!{_name}'
+                _name = '%s!%s' % (rng['sheet_id'].replace('%', '%%'), _name)
             if wk not in sheet_limits:
                 sheet_limits[wk] = wk.max_row, wk.max_column
             max_row, max_column = sheet_limits[wk]
